@@ -34,12 +34,25 @@ let () =
       r (show_status (st_reshape s d)) (np (np_reshape_ok s d)) (posb s && d <> []) | _ -> failwith "reshape");
   register "transpose" (fun a -> match a with [x; p] -> let s = shape_of x and p = getL p in
       r (show_status (st_transpose p s)) (np (Views.np_transpose_ok (nat_of_int (List.length s)) (Some p))) false | _ -> failwith "transpose");
+  register "transpose_u" (fun a -> match a with [x; p] -> let s = shape_of x and p = getL p in
+      r (show_status (st_transpose p s)) (np (Views.np_transpose_ok (nat_of_int (List.length s)) (Some p))) false | _ -> failwith "transpose_u");
   register "swapaxes" (fun a -> match a with [x; a1; a2] -> let s = shape_of x in
       r (show_status (st_swapaxes (getI a1) (getI a2) s)) (np (Views.np_swapaxes_ok (nat_of_int (List.length s)) (getI a1) (getI a2))) false
     | _ -> failwith "swapaxes");
   register "moveaxis" (fun a -> match a with [x; a1; a2] -> let s = shape_of x in
       let ok = Views.np_moveaxis_ok (nat_of_int (List.length s)) (Views.AxOne (getI a1)) (Views.AxOne (getI a2)) in
       r (np ok) (np ok) false | _ -> failwith "moveaxis");
+  register "norm_axis_u" (fun a -> match a with [x; n] ->
+      r (show_status (st_normalize_axis (getI x) (getI n))) (np (np_axis_ok (getI x) (getI n))) true | _ -> failwith "norm_axis_u");
+  register "norm_axes_u" (fun a -> match a with [x; n] -> let ok = List.for_all (fun v -> axis_ok v (getI n)) (getL x) in
+      r (np ok) (np ok) false | _ -> failwith "norm_axes_u");
+  register "norm_axes_u8" (fun a -> match a with [x; n] -> let ok = List.for_all (fun v -> axis_ok v (getI n)) (getL x) in
+      r (np ok) (np ok) false | _ -> failwith "norm_axes_u8");
+  register "norm_axes_ua" (fun a -> match a with [x; n] -> let ok = List.for_all (fun v -> axis_ok v (getI n)) (getL x) in
+      r (np ok) (np ok) false | _ -> failwith "norm_axes_ua");
+  register "moveaxis_u" (fun a -> match a with [x; a1; a2] -> let s = shape_of x in
+      let ok = Views.np_moveaxis_ok (nat_of_int (List.length s)) (Views.AxOne (getI a1)) (Views.AxOne (getI a2)) in
+      r (np ok) (np ok) false | _ -> failwith "moveaxis_u");
   register "expand_dims" (fun a -> match a with [x; ax] -> let s = shape_of x in
       r (show_status (st_expand_dims (getI ax) s)) (np (Views.np_expand_dims_ok (nat_of_int (List.length s)) (Views.AxOne (getI ax)))) false
     | _ -> failwith "expand_dims");
@@ -62,6 +75,8 @@ let () =
   register "sum" (fun a -> match a with [x; ax] -> let ok = axis_ok (getI ax) (zlen_i (shape_of x)) in r (np ok) (np ok) false | _ -> failwith "sum");
   register "sums" (fun a -> match a with [x; ax] -> let n = zlen_i (shape_of x) and l = getL ax in
       let ok = List.for_all (fun v -> axis_ok v n) l && nodup (List.map (fun v -> norm v n) l) in r (np ok) (np ok) false | _ -> failwith "sums");
+  register "sums_u" (fun a -> match a with [x; ax] -> let n = zlen_i (shape_of x) and l = getL ax in
+      let ok = List.for_all (fun v -> axis_ok v n) l && nodup (List.map (fun v -> norm v n) l) in r (np ok) (np ok) false | _ -> failwith "sums_u");
   register "flip" (fun a -> match a with [x; ax] -> let ok = axis_ok (getI ax) (zlen_i (shape_of x)) in r "ok" (np ok) false | _ -> failwith "flip");
   register "take" (fun a -> match a with [x; ind; ax] -> let s = shape_of x in let n = zlen_i s in
       let ok = axis_ok (getI ax) n &&
